@@ -31,6 +31,7 @@ var compileWake = map[string]bool{
 }
 
 var compileOptional = []string{
+	"auto.",
 	"c.publish", "c.release", "c.setBlocked", "c.compileDep", "c.cycleCheck", "c.unblock", "c.link",
 	"c.acquire.ok", "c.dep.ready", "c.main.ready",
 	"s.import.check", "s.importFile", "s.importPackage.r", "s.importPackage.w", "s.getPackage",
